@@ -1202,6 +1202,7 @@ impl World for LongWorld {
         knobs.insert("sched_seed".into(), rng.next() >> 1);
         // Anchored input read into a separate arena (a reader that owns its buffers).
         knobs.insert("separate_arena".into(), (index / 4 / 2) % 2);
+        knobs.insert("recycled_iovec".into(), (index % 5 == 1) as u64);
         if index % 4 == 3 {
             // A long log read back through StreamReader.
             knobs.insert("reader_log".into(), 1);
@@ -1261,7 +1262,17 @@ fn long_run(plan: &Plan, stats: &mut Stats, log: &mut LogHash, vs: &mut Vec<V>, 
     let policy = plan.knob("drain_policy");
     let eintr = plan.knob("eintr") != 0;
     let mut rng = Rng::new(plan.knob("sched_seed") ^ 0x10c6);
-    let mut enc: hcobs::Encoder<'static> = hcobs::Encoder::new();
+    // Some runs start from a recycled iovec: used, given a placeholder that was
+    // never filled, cleared, and handed to a new encoder.
+    let mut enc: hcobs::Encoder<'static> = if plan.knob("recycled_iovec") != 0 {
+        let mut iov = OwningIovec::new();
+        iov.push_copy(b"previous use");
+        let _abandoned = iov.register_patch(&[0u8, 0u8]);
+        iov.clear();
+        hcobs::Encoder::new_from_iovec(iov)
+    } else {
+        hcobs::Encoder::new()
+    };
     let mut dec: hcobs::Decoder<'_> = hcobs::Decoder::new();
     let separate = plan.knob("separate_arena") != 0;
     let mut reader_arena = ByteArena::new();
